@@ -2498,6 +2498,33 @@ func (c *Ctx) runNilFunc() {
 				if fr, ok := core.AsFieldLoad(src); ok && fr.Owner == "argBuilder" {
 					fromList = true // another converter list of the builder (covered by this rule at its own appends)
 				}
+				// the list a private step collected, every element of which was tested non-nil where it was appended
+				if ex, ok := src.(*ssa.Extract); ok {
+					if hc, ok := ex.Tuple.(*ssa.Call); ok {
+						if h := hc.Common().StaticCallee(); h != nil && p.PrivateHelper(h) {
+							all, any := true, false
+							for _, hr := range core.Returns(h) {
+								if ex.Index >= len(hr.Results) {
+									continue
+								}
+								if k, isK := hr.Results[ex.Index].(*ssa.Const); isK && k.Value == nil {
+									continue
+								}
+								for _, ap := range appendSites(h, hr.Results[ex.Index]) {
+									for _, e := range appendedValues(ap) {
+										any = true
+										if !nilCheckLit(core.Lits(core.Guards(ap.Block())), e, false) {
+											all = false
+										}
+									}
+								}
+							}
+							if all && any {
+								fromList = true
+							}
+						}
+					}
+				}
 				// slices.DeleteFunc(list, isNil): what is left has no nil element
 				if dc, ok := src.(*ssa.Call); ok && len(dc.Common().Args) == 2 {
 					if pk, fn := core.StdCallee(dc.Common().StaticCallee()); pk == "slices" && fn == "DeleteFunc" {
